@@ -221,7 +221,7 @@ func (w *C10World) Do(a string) error {
 	return sim.Quiesce()
 }
 
-func (w *C10World) Key() string                            { return "" }
+func (w *C10World) Key() string { return "" }
 func (w *C10World) Check(hist []string) []explore.Violation {
 	w.mu.Lock()
 	defer w.mu.Unlock()
@@ -318,6 +318,7 @@ func init() {
 				return
 			}
 			d := &explore.ScheduleDFS{
+				Settle:   settle,
 				Scenario: a.Name(),
 				New:      func() (explore.World, error) { return NewC10World(a) },
 				Bound:    a.Bound, Horizon: 200, Stats: c.Stats, Journal: c.JournalHist, Expired: c.Expired,
